@@ -478,6 +478,28 @@ func (g *pgen) corpusC02(start int) []*ConvSpec {
 func (g *pgen) corpusC05(start int) []*ConvSpec {
 	var out []*ConvSpec
 	str, i := tBasic(bkString), tBasic(bkInt)
+	// two autoMap structs offering the same field: ambiguous (must fail), in both orders of the lines; with one of the
+	// fields renamed the two lines resolve
+	for variant := 0; variant < 3; variant++ {
+		addr := g.newNamed(1, &Ty{K: "struct", Pkg: 1, Fields: []Field{{"Street", str}, {"Zip", i}}}, "S")
+		other := addr
+		if variant == 2 {
+			other = g.newNamed(1, &Ty{K: "struct", Pkg: 1, Fields: []Field{{"City", str}}}, "S")
+		}
+		s := g.newNamed(1, &Ty{K: "struct", Pkg: 1, Fields: []Field{{"Home", tNamed(addr)}, {"Work", tNamed(other)}, {"X", i}}}, "S")
+		tf := []Field{{"Street", str}, {"Zip", i}, {"X", i}}
+		if variant == 2 {
+			tf = append(tf, Field{"City", str})
+		}
+		t := g.newNamed(1, &Ty{K: "struct", Pkg: 1, Fields: tf}, "T")
+		lines, auto := []string{"autoMap Home", "autoMap Work"}, []string{"Home", "Work"}
+		if variant == 1 {
+			lines, auto = []string{"autoMap Work", "autoMap Home"}, []string{"Work", "Home"}
+		}
+		c := &ConvSpec{Name: fmt.Sprintf("C%d", start+len(out))}
+		c.Methods = []*MethodSpec{{Name: "M0", Src: tNamed(s), Tgt: tNamed(t), Lines: lines, Auto: auto, Fields: map[string]*fieldSet{}}}
+		out = append(out, c)
+	}
 	for _, byPtr := range []bool{false, true} {
 		for variant := 0; variant < 3; variant++ {
 			addr := g.newNamed(1, &Ty{K: "struct", Pkg: 1, Fields: []Field{{"Street", str}}}, "S")
